@@ -27,7 +27,7 @@ func verifRuleSig(r *urlfilter.DNSResult) (n int, white bool, text string) {
 // it, whichever client populated the cache, and after the list text is replaced no
 // request is answered from the old version.
 //
-//verif:harness name=H12b-rulelist tier=quick,thorough bounds="a list of 3 rules (block, allow, $dnstype) through the real urlfilter engine; 4 hosts x {A, AAAA}; two clients with symbolic address; request/answer flag both ways; cache = real agdcache.LRU" reach=done,blocked,allowed,none maxpaths=50000
+//verif:harness name=H12b-rulelist tier=quick,thorough bounds="a list of 3 rules (block, allow, $dnstype) through the real urlfilter engine; 4 hosts x {A, AAAA}; two clients with symbolic address, the first (cache-populating) one with its own qtype and request/answer flag; request/answer flag both ways; cache = real agdcache.LRU" reach=done,blocked,allowed,none maxpaths=50000
 //verif:assume rules carry no client-specific modifiers; rule text matching is done by the real urlfilter engine on concrete names
 func VerifC12RuleList() {
 	text := "||blocked.example^\n@@||allowed.example^\n||typed.example^$dnstype=AAAA\n"
@@ -45,7 +45,9 @@ func VerifC12RuleList() {
 
 	// another question first (must not influence the answer), then client 0, then client 1
 	_ = cached.DNSResult(ip0, "c0", "blocked.example", dns.TypeA, false)
-	_ = cached.DNSResult(ip0, "c0", host, qt, isAns)
+	qt0 := []uint16{dns.TypeA, dns.TypeAAAA}[verifChoice(2)]
+	isAns0 := verifChoice(2) == 1
+	_ = cached.DNSResult(ip0, "c0", host, qt0, isAns0)
 	got := cached.DNSResult(ip1, "c1", host, qt, isAns)
 	want := plain.DNSResult(ip1, "c1", host, qt, isAns)
 	gn, gw, gt := verifRuleSig(got)
